@@ -132,9 +132,11 @@ def make_abstract_dissim(ns, ctx, de, categories):
 
     class AbstractD(ns.ds.AbstractDissimilarity):
         def __init__(self):
+            self.table = table
+            # the real constructor runs (whatever state it sets up is set up), then the symbolic delta_empty is put back
+            ns.ds.AbstractDissimilarity.__init__(self, categories=categories, delta_empty=1.0)
             self.delta_empty = de
             self.categories = categories
-            self.table = table
             self.d_mat = self._dm
 
         def compile_d_mat(self):
